@@ -28,6 +28,7 @@ RULE = ("lock-step differential: every operation of a history (awaited call, fai
         "than maxsize, with failing nodes and clears between top-level calls. non-trivial = "
         "history with at least one hit and (one eviction or one discard or one clear or a failing call); "
         "distinct = (configuration, history)")
+RULE += (" Also: results None/0/False/''/() ; keyword names self/key/args/typed; failing calls raising every standard exception type (incl. falsy exception instances); bound/unbound access sharing one store.")
 ASSUMPTIONS = ["functools.lru_cache (C implementation of the running 3.12 interpreter) is the reference",
                "cache_discard has no stdlib twin: reference is the cross-validated model"]
 EXHAUSTIVE_SUBSPACES = 'all histories of length <= 4 (thorough: 5) over 7 operations for maxsize 1 and 2'
